@@ -421,6 +421,9 @@ def main(tier, seed):
     profcheck.run_scenarios(rep, "handlerintact", scenarios.handler_intact_scenarios()[::2], binaries, PROP)
     # captured variables opened in every order (a variable left open on a dead slot ends as a host panic or a wild write sooner or later)
     profcheck.run_scenarios(rep, "captureorder", scenarios.capture_order_scenarios(), binaries, PROP)
+    # class hierarchies (ancestry walked by derives / method lookup after the superclass name has been rebound or its scope has ended); like every
+    # replay, with reclaimed objects quarantined so that an access to one is an event, not a lucky read
+    profcheck.run_scenarios(rep, "classes", scenarios.class_scenarios(random.Random(seed + 4), nsc), binaries, PROP)
     states += rep.coverage.pop("states", 0)
     rep.coverage.pop("transitions", 0)
     ncmp += rep.coverage.pop("traces_validated_against_impl", 0)
